@@ -72,6 +72,11 @@ theorem unfoldItems_frame {S : Nat → Prop} {T T' : Types} (hw : IWF T S) (hf :
 theorem cov_eqKind {t : Tree} (h : isEqKind t = true) : cov t = true := by
   cases t <;> simp [isEqKind] at h <;> simp [cov]
 
+theorem cov_eqK {t : Tree} (h : isEqK t = true) : cov t = true := by
+  cases t with
+  | type a => simp only [cov]; exact cov_eqKind h
+  | _ => first | exact cov_eqKind h | (simp [isEqK, isEqKind] at h)
+
 theorem covF_unfoldItems {u : ItemKind → Option Tree} : ∀ (E : List (Str × ItemKind)) (F : Forest),
     (∀ x, x ∈ E → ∀ t, u x.2 = some t → cov t = true) → unfoldItems u E = some F → covF F = true
   | [], F, _, h => by simp [unfoldItems] at h; subst h; rfl
@@ -85,7 +90,7 @@ theorem cov_unfold {S : Nat → Prop} {T : Types} (hw : IWF T S) :
   | 0, k, t, _, h => by simp [Types.unfoldKind] at h
   | n + 1, k, t, hk, h => by
     rcases hk with hk | ⟨t0, rfl⟩
-    · exact cov_eqKind (eqKind_unfoldLeaf hk h)
+    · exact cov_eqK (eqKind_unfoldLeaf hk h)
     · simp only [Types.unfoldKind] at h
       cases hi : T.interfaces[t0]? with
       | none => simp [hi] at h
